@@ -19,6 +19,7 @@ type Options struct {
 func DefaultOptions() Options { return Options{Structs: 5, Enums: 3, Nameds: 4, Unions: 2} }
 
 type gen struct {
+	sharedDeclared bool
 	rng  *rand.Rand
 	opt  Options
 	c    *Case
